@@ -242,13 +242,14 @@ def notDivisible (e c tol : Rat) : Bool :=
   decide (tol < remainder e c) && decide (remainder e c < c - tol)
 
 /-- `Mesh(region=…, cell=…)`: positivity, not larger than the region, 0.1 % divisibility
-test on the remainder, `n = round(edges / cell)`. -/
+test on the remainder, `n = round(edges / cell)`, and (repo fix 5c501c0e, D101) every count at least 1. -/
 def mkCell? (r : Region) (cell : List Rat) (bc : String := "") : M Mesh :=
   if cell.length ≠ r.ndim then .error .value
   else if cell.any (fun c => decide (c ≤ 0)) then .error .value
   else if !r.containsPt (tab r.ndim fun a => r.lo a + cell.getD a 0) then .error .value
   else if !allLt r.ndim (fun a => !notDivisible (r.edge a) (cell.getD a 0) (listMin cell / 1000))
     then .error .value
+  else if !allLt r.ndim (fun a => decide (1 ≤ (roundHalfEven (r.edge a / cell.getD a 0)).toNat)) then .error .value
   else if !bcOk r.dims bc.toLower then .error .value
   else .ok { region := r, n := tab r.ndim fun a => (roundHalfEven (r.edge a / cell.getD a 0)).toNat,
              bc := bc.toLower, subs := [] }
